@@ -90,8 +90,8 @@ Proof.
   destruct (Z.land val 31 =? VALUE_ARRAY).
   { pose proof (read_u_noo bs) as Nu. destruct (read_u bs) as [[size r0]|e0] eqn:E0; cbn [bind]; [|split; [unfold noo in *; congruence | discriminate]].
     pose proof (read_u_consumes _ _ _ E0) as S0. unfold shorter in S0. assert (Hb0 : (length r0 < f)%nat) by lia.
-    destruct (parse_values_ends rec f L (Z.to_nat size) r0 Hb0) as [N S].
-    destruct (parse_values rec (Z.to_nat size) r0) as [[vs r1]|e1] eqn:E1; cbn [bind].
+    destruct (parse_values_ends rec f L (cnt size r0) r0 Hb0) as [N S].
+    destruct (parse_values rec (cnt size r0) r0) as [[vs r1]|e1] eqn:E1; cbn [bind].
     - split; [discriminate|]. intros v r H. injection H as _ <-. specialize (S vs r1 eq_refl). lia.
     - split; [unfold noo in *; congruence | discriminate]. }
   destruct (Z.land val 31 =? VALUE_ANNOTATION).
@@ -99,8 +99,8 @@ Proof.
     pose proof (read_u_consumes _ _ _ E0) as S0. unfold shorter in S0.
     pose proof (read_u_noo r0) as Nu1. destruct (read_u r0) as [[size r00]|e00] eqn:E00; cbn [bind]; [|split; [unfold noo in *; congruence | discriminate]].
     pose proof (read_u_consumes _ _ _ E00) as S00. unfold shorter in S00. assert (Hb0 : (length r00 < f)%nat) by lia.
-    destruct (parse_elements_ends rec f L (Z.to_nat size) r00 Hb0) as [N S].
-    destruct (parse_elements rec (Z.to_nat size) r00) as [[vs r1]|e1] eqn:E1; cbn [bind].
+    destruct (parse_elements_ends rec f L (cnt size r00) r00 Hb0) as [N S].
+    destruct (parse_elements rec (cnt size r00) r00) as [[vs r1]|e1] eqn:E1; cbn [bind].
     - split; [discriminate|]. intros v r H. injection H as _ <-. specialize (S vs r1 eq_refl). lia.
     - split; [unfold noo in *; congruence | discriminate]. }
   destruct (Z.land val 31 =? VALUE_BYTE).
@@ -125,5 +125,5 @@ Theorem parse_array_ends bs : parse_array (S (length bs)) bs <> Err OutOfFuel.
 Proof.
   unfold parse_array. pose proof (read_u_noo bs) as Nu. destruct (read_u bs) as [[size r0]|e0] eqn:E0; cbn [bind]; [|unfold noo in *; congruence].
   pose proof (read_u_consumes _ _ _ E0) as S0. unfold shorter in S0.
-  apply (parse_values_ends (parse_value (S (length bs))) (S (length bs)) (parse_value_level _) (Z.to_nat size) r0). lia.
+  apply (parse_values_ends (parse_value (S (length bs))) (S (length bs)) (parse_value_level _) (cnt size r0) r0). lia.
 Qed.
